@@ -95,6 +95,39 @@ pub fn run(ctx: &Ctx) {
             judge(&b, size, loc);
         }));
     }
+    // every size 0..=S: special byte (NUL / invalid / cut multi-byte) at every position, input
+    // shorter by 1, exact, longer by 1 and by 300
+    {
+        let smax = ctx.tier.pick(300usize, 1100usize);
+        let tri = (smax + 1) * (smax + 2) / 2; // pairs (size, pos) with pos <= size; pos == size means "no special byte"
+        let fills: [&[u8]; 3] = [b"a", &[0xC3, 0xA9], &[0xE2, 0x82, 0xAC]];
+        let specials: [u8; 3] = [0x00, 0xFF, 0xC3];
+        let sp = Space::new(&[tri, fills.len(), specials.len(), 4]);
+        let s2 = sp.clone();
+        ctx.run_family(Family::new("c19.size_sweep", sp.size(), format!("every size 0..={} x special byte {{NUL, 0xFF, a lead byte}} at every position 0..size (or none) x fill {{'a', é, € repeated}} x input length {{size-1, size, size+1, size+300}}", smax), move |i, loc| {
+            let c = s2.coords(i);
+            // invert the triangular index
+            let mut size = ((((8 * c[0] + 1) as f64).sqrt() - 1.0) / 2.0) as usize;
+            while (size + 1) * (size + 2) / 2 <= c[0] {
+                size += 1;
+            }
+            while size * (size + 1) / 2 > c[0] {
+                size -= 1;
+            }
+            let pos = c[0] - size * (size + 1) / 2;
+            let n = match c[3] {
+                0 => size.saturating_sub(1),
+                1 => size,
+                2 => size + 1,
+                _ => size + 300,
+            };
+            let mut b: Vec<u8> = fills[c[1]].iter().cycle().take(n).cloned().collect();
+            if pos < size && pos < n {
+                b[pos] = specials[c[2]];
+            }
+            judge(&b, size, loc);
+        }));
+    }
     // ids of a message obey the same rule
     {
         let sp = Space::new(&[4096, 4]);
